@@ -10,6 +10,20 @@ MAX_PATHS = 20000
 
 def setup(E):
     sftp_server.declare_c32(E)
+    # _check_file reads the file through SFTPHandle.read: that read returns the file's bytes at the requested offset given
+    # the handle's representation invariant (its idea of the file position is the real one or none), which the constructor
+    # establishes - own bodies, contract shared with C27
+    from contracts import sftp_handle
+    E3 = type(E)()
+    sftp_handle.declare(E3)
+    global TARGETS
+    TARGETS = [t for t in TARGETS if not (isinstance(t, tuple) and t[1] == "server-handle")]
+    for fn in ("__init__", "read"):
+        qn = "paramiko.sftp_handle.SFTPHandle." + fn
+        TARGETS.append((qn, "server-handle", dict(E3.contracts[qn], **{
+            "+replace": True, "+contracts": {k: v for k, v in E3.contracts.items() if k != qn},
+            "+fields": {k: dict(d["fields"]) for k, d in E3.classdecl.items()},
+            "+engine": {"auto_opaque": True, "ghost_types": dict(E3.ghost_types)}})))
 
 CLAIMED = True
 LEVEL_TEXT = ("Proof with nested loop invariants and variants on the real _check_file, for every file content, start, length "
@@ -18,8 +32,8 @@ LEVEL_TEXT = ("Proof with nested loop invariants and variants on the real _check
               "loop hashes exactly file[block_start:block_start+blocklen] however the handle cuts its reads; the range is "
               "clamped at end of file when the length is zero or runs past it; block sizes under 256 are refused; both loops "
               "terminate (variants), and exactly one response is sent on every path.")
-LEVEL_NOTE = ("Assumed: SFTPHandle.read(offset, n) returns a non-empty prefix of file[offset:offset+n] while offset is before "
-              "end of file (or an error code), stat() reports the true size, hash objects digest the concatenation of their "
+LEVEL_NOTE = ("SFTPHandle.read(offset, n) returns a non-empty prefix of file[offset:offset+n] while offset is before "
+              "end of file (or an error code): verified on SFTPHandle.read and SFTPHandle.__init__ (position-cache invariant, shared with C27) over an abstract file object. Assumed: stat() reports the true size, hash objects digest the concatenation of their "
               "updates (uninterpreted digest). The algorithm list is modelled with one entry (bounded in the list length). "
               "G is an uninterpreted function with its unfolding axioms; its meaning is validated natively against hashlib.")
 TECHNIQUE = "deductive: nested loop invariants + variants over a recursive specification function, z3 (E-matching)"
